@@ -165,8 +165,32 @@ theorem idInv_mWhen (s : St) (k : Option Nat) (hi : IdInv s) : IdInv (mWhen s k)
       exact List.Perm.append_left _ List.perm_append_comm
     exact this.trans (List.Perm.append_right _ hw)
 
+/-- a service call made from inside the application's `connectionLost` handler keeps the books -/
+theorem idInv_stepAct (pol : Nat → Nat) (s : St) (a : Act) (hi : IdInv s) : IdInv (stepAct pol s a) := by
+  cases a with
+  | «when» k => exact idInv_mWhen s k hi
+  | start =>
+    simp only [stepAct]; split
+    · exact hi
+    · exact hi.keeps ((keeps_mStart _).trans (Keeps.of_eq rfl rfl rfl rfl rfl rfl))
+  | stop => exact IdInv.oneMoreStop (oneMore_of_eq (oneMore_mStop pol { s with running := false }) rfl rfl rfl rfl rfl rfl) hi
+
+theorem idInv_foldl_stepAct (pol : Nat → Nat) (acts : List Act) (s : St) (hi : IdInv s) :
+    IdInv (acts.foldl (stepAct pol) s) := by
+  induction acts generalizing s with
+  | nil => exact hi
+  | cons a as ih => exact ih _ (idInv_stepAct pol s a hi)
+
+theorem idInv_proxyConnectionLost (pol : Nat → Nat) (s : St) (acts : List Act) (r : Bool) (hi : IdInv s) :
+    IdInv (proxyConnectionLost pol s acts r).1 :=
+  (idInv_foldl_stepAct pol acts s hi).keeps (keeps_clientDisconnected pol _)
+
 theorem idInv_step (pol : Nat → Nat) (s : St) (e : Ev) (hi : IdInv s) : IdInv (step pol s e).1 := by
   cases e with
+  | dropH i acts r =>
+    simp only [step]; split
+    · exact idInv_proxyConnectionLost pol _ acts r (hi.keeps (Keeps.of_eq rfl rfl rfl rfl rfl rfl))
+    · exact hi
   | start =>
     simp only [step]; split
     · exact hi
